@@ -28,6 +28,7 @@ TRIPLES = [("cidar.CIDAREntryVector", "cidar.CIDARProduct", "cidar.CIDAREntry"),
 
 
 def sites(wd, enz):
+    wd = wd.upper()
     return gen.circ_count(wd, enz.site) + gen.circ_count(wd, gen.rc(enz.site))
 
 
@@ -135,7 +136,7 @@ def materialise(case):
     fresh = build_two_level(r, arg) if kind == "two" else build(r, tuple(arg))
     if fresh is None:
         return None
-    for k in ("swap", "cited", "recipe", "twice"):
+    for k in ("swap", "cited", "recipe", "twice", "lower"):
         if k in case:
             fresh[k] = case[k]
     if case.get("twice") and fresh.get("mods"):
@@ -241,15 +242,19 @@ def check_two_level(ctx, case):
     import warnings
     CV, E, C, DV, D = [asm.cls_by_name("kit:" + n) for n in case["names"]]
 
+    papers = {}
+
     def rec(word, rid):
+        if rid in case.get("lower", ()):
+            word = word.lower()                 # a soft-masked export of the same plasmid
         r = impl.CircularRecord(impl.Seq(word), id=rid, name=rid)
         if case.get("cited"):
             # documented inputs: a reference and small cited features all along the record (those inside the kept
             # stretch travel with the product into the next level)
-            base = 300 + 10 * (sum(map(ord, rid)) % 9)
+            base = 300 + 10 * papers.setdefault(rid, len(papers))          # every record its own four papers
             r.annotations["references"] = [impl.mk_ref(base + q_) for q_ in range(4)]     # ≥ 10 papers by level 2
-            for p in range(0, len(word) - 1, 3):
-                r.features.append(impl.mk_feature(impl.Feat(1, "u7", ("i%d" % (1 + (p // 3) % 4),), ((p, p + 1, 1),))))
+            for p in range(0, len(word) - 1):
+                r.features.append(impl.mk_feature(impl.Feat(1, "u7", ("i%d" % (1 + p % 4),), ((p, p + 1, 1),))))
         return r
     prods = []
     with warnings.catch_warnings():
@@ -291,7 +296,7 @@ def check_two_level(ctx, case):
         joined = "".join(targets)
         if res[0] != "valid":
             ctx.fail("two-level {}: the device product is not accepted by {} ({})".format(case["kit"], D.__name__, res[0]), case)
-        elif joined not in res[3]:
+        elif joined.upper() not in res[3].upper():
             ctx.fail("two-level {}: the target of the {} does not contain both cassette targets in chain order "
                      "(target {!r}, cassette targets {})".format(case["kit"], D.__name__, res[3], targets), case)
     ctx.note("two-level:" + case["kit"])
@@ -309,7 +314,9 @@ def run(ctx):
                 ctx.note("two-level-build-failed:" + kit)
                 continue
             ctx.guard(check_case, {"recipe": ["two", kit, rs], "swap": rng.random() < 0.5, "cited": rng.random() < 0.4,
-                                   "twice": rng.random() < 0.25})
+                                   "twice": rng.random() < 0.25,
+                                   "lower": [x for x in ("cv0", "cv1", "e0_0", "e0_1", "e1_0", "e1_1", "dv")
+                                             if rng.random() < 0.5] if rng.random() < 0.3 else []})
             made += 1
             if made >= ctx.budget(40, 1500):
                 break
